@@ -62,7 +62,8 @@ class Finding:
 
 
 class Report:
-    def __init__(self, prop: str, tier: str, seed: int = 0):
+    def __init__(self, prop: str, tier: str, seed: int = 0, dry: bool = False):
+        self.dry = dry  # self-test runs: collect findings, write nothing, print nothing
         self.prop = prop
         self.tier = tier
         self.seed = seed
@@ -106,7 +107,20 @@ class Report:
         self.notes.append(msg)
 
     # ------------------------------------------------------------------
+    def new_findings(self):
+        known = load_known()
+        seen, out = set(), []
+        for f in self.findings:
+            if f.key() in seen:
+                continue
+            seen.add(f.key())
+            if match_known(known, f) is None:
+                out.append(f)
+        return out
+
     def finish(self) -> int:
+        if self.dry:
+            return 1 if self.new_findings() else (2 if self.errors else 0)
         known = load_known()
         out_dir = os.path.join(VERIF, 'out')
         os.makedirs(out_dir, exist_ok=True)
